@@ -695,7 +695,7 @@ class CategoricalClassification:
                     # find all unique values from labels != current label
                     values = set()
                     for key in possible_labels:
-                        values = values.union(unique_per_label[key])
+                        values = values.union(unique_per_label[label_values[key]])
 
                     # remove any overlapping values, ensuring replacement values are unique & from a target label !=
                     # current label
@@ -707,7 +707,7 @@ class CategoricalClassification:
 
                     else:
                         key = possible_labels[np.random.randint(len(possible_labels))]
-                        values = unique_per_label[key]
+                        values = unique_per_label[label_values[key]]
                         val = np.random.choice(list(values))
 
                     feature[ix] = val
